@@ -86,7 +86,7 @@ func runC01(c *Cfg) {
 	r.Exhaustive = true
 	r.Note(fmt.Sprintf("standalone product enumerated completely: %d cases (11 node kinds x budgets 1..8 x first-success index 1..N+1 x fallback x prep x post)", len(cases)))
 	// 2. nodes embedded in generated flows, with one run-ending failure injected at a random on-path position
-	nFlows := c.Pick(20000, 300000)
+	nFlows := c.Pick(20000, 1000000)
 	parallel(c, nFlows, func(i int) {
 		rg := c.Rng("c01flow", i)
 		sc := scen.GenFlowScenario(rg, scen.GenOpts{MaxNodes: 12, MaxActions: 5, MaxDepth: 3, Failures: true, Zoo: true})
